@@ -99,6 +99,10 @@ class Gate:
             self.fut.set_exception(val)
 
 
+def _drop_report(loop, ctx):
+    pass
+
+
 class World:
     """One execution's loop + gates.  Use as a context manager."""
 
@@ -147,7 +151,8 @@ class World:
             loop.close()
             # break reference cycles (loop <-> handler, gates <-> futures) and collect the rest now and then:
             # garbage that reaches the oldest generation is otherwise only reclaimed very rarely
-            loop.set_exception_handler(None)
+            # (reports that arrive after the execution - GC-timed "exception was never retrieved" - are outside every oracle)
+            loop.set_exception_handler(_drop_report)
             self.agens.clear()
             global _exits
             _exits += 1
